@@ -195,6 +195,12 @@ def run(ck, prog, tier, load):
     for bb in lens:
         ok = bool(CH) and guarded_by(sh, bb, lambda c, lab: bool(bool_test(c, lab)) and is_local(bool_test(c, lab)[0], CH) and bool_test(c, lab)[1] is False)[0]
         ck.ob("C17-a.chunked-wins-over-length", "set_headers", ok, sh, bb, "the Content-Length decoder is chosen only on the edge where the message is not chunked: a response with both headers is framed by its chunked coding")
+    # the pooled connection hands the transport's read result on unchanged: an error of the transport (reset, timeout) is
+    # an error of the body, never a clean end of input
+    for b in prog.find(r"^<awc::client::connection::H1Connection<Io> as tokio::io::async_read::AsyncRead>::poll_read$"):
+        rets = list(b.ret_exprs())
+        ok = bool(rets) and all(e[0] == "call" and rx(r"AsyncRead>::poll_read$|AsyncRead::poll_read$").search(e[1] or "") for bb, e in rets)
+        ck.ob("C17-a.connection-read-delegates", "H1Connection::poll_read", ok, b, rets[0][0] if rets else None, "H1Connection::poll_read returns the transport's poll_read result itself on every path (no error is turned into Ok)")
     stream_flag_has_payload(ck, prog, "C17-d")
 
 
